@@ -36,43 +36,63 @@ def FullNormalizeCanonicalize (puny : Str → Str) : Prop :=
 
 /-- **factorisation**: `normalize_url` reads a parsed URL only through its canonical components:
 `normParts = N ∘ canonComps` with `N := normParts ∘ reparse` (the re-parse of the printed
-canonical URL).  Unquoted mode; `strip_protocol`, `strip_authentication`,
-`strip_trailing_slash` on (the defaults), every other documented option free; whatever scheme
-canonicalisation assumed for a scheme-less input. -/
+canonical URL).  `strip_protocol`, `strip_authentication`, `strip_trailing_slash` on (the
+defaults), every other documented option free, the same `quoted` on both sides; whatever scheme
+canonicalisation assumed for a scheme-less input.  In quoted mode for `QuotedClean` inputs (the
+exclusion of the KF-C02-1 family; it really fails outside: next witness). -/
 theorem normalize_factors (puny : Str → Str) (hp : PunyLaws puny)
     (o : Opts) (hsp : o.stripProtocol = true) (hsa : o.stripAuthentication = true)
-    (hsts : o.stripTrailingSlash = true) (hq : o.quoted = false) (hlc : o.lowercase = false)
-    (p : Parsed) (hAbs : absP p.path = true) (s0 : Str) (b b' : Bool) :
+    (hsts : o.stripTrailingSlash = true) (hlc : o.lowercase = false)
+    (p : Parsed) (hAbs : absP p.path = true) (hcl : o.quoted = true → QuotedClean p)
+    (s0 : Str) (b b' : Bool) :
     normParts puny o b p =
-      normParts puny o b' (reparse (canonComps puny false false { p with scheme := s0 })) :=
-  (normParts_reparse_canon puny hp pathHyp o hsp hsa hsts hq hlc p _ hAbs s0 (reparses_reparse _) b b').symm
+      normParts puny o b' (reparse (canonComps puny o.quoted false { p with scheme := s0 })) :=
+  (normParts_reparse_canon puny hp pathHyp o hsp hsa hsts hlc p _ hAbs hcl s0 (reparses_reparse _) b b').symm
 
 /-- **(c1)** `normalize_url(canonicalize_url(u)) == normalize_url(u)`, on components: what
 `normalize_url` computes from ANY re-parse `p'` of the canonical components of `p` is what it
-computes from `p`.  (`_partial`: unquoted mode, a path that is empty or starts with `/` — every
-URL with an authority —; `platform_aware` and the redirect step act on
-the string before parsing and are outside this statement.) -/
+computes from `p`.  (`_partial`: a path that is empty or starts with `/` — every URL with an
+authority —; in quoted mode `QuotedClean p`; `platform_aware` and the redirect step act on the
+string before parsing and are outside this statement.) -/
 theorem normalize_canonicalize_partial (puny : Str → Str) (hp : PunyLaws puny)
     (o : Opts) (hsp : o.stripProtocol = true) (hsa : o.stripAuthentication = true)
-    (hsts : o.stripTrailingSlash = true) (hq : o.quoted = false) (hlc : o.lowercase = false)
-    (p p' : Parsed) (hAbs : absP p.path = true) (s0 : Str)
-    (hR : Reparses (canonComps puny false false { p with scheme := s0 }) p') (b b' : Bool) :
+    (hsts : o.stripTrailingSlash = true) (hlc : o.lowercase = false)
+    (p p' : Parsed) (hAbs : absP p.path = true) (hcl : o.quoted = true → QuotedClean p) (s0 : Str)
+    (hR : Reparses (canonComps puny o.quoted false { p with scheme := s0 }) p') (b b' : Bool) :
     normParts puny o b' p' = normParts puny o b p :=
-  normParts_reparse_canon puny hp pathHyp o hsp hsa hsts hq hlc p p' hAbs s0 hR b b'
+  normParts_reparse_canon puny hp pathHyp o hsp hsa hsts hlc p p' hAbs hcl s0 hR b b'
 
 /-- **(a)** two parsed URLs with the same canonical components have the same normalized form -/
 theorem normalize_of_canon_eq_partial (puny : Str → Str) (hp : PunyLaws puny)
     (o : Opts) (hsp : o.stripProtocol = true) (hsa : o.stripAuthentication = true)
-    (hsts : o.stripTrailingSlash = true) (hq : o.quoted = false) (hlc : o.lowercase = false)
+    (hsts : o.stripTrailingSlash = true) (hlc : o.lowercase = false)
     (p₁ p₂ : Parsed) (hAbs₁ : absP p₁.path = true) (hAbs₂ : absP p₂.path = true)
-    (hc : canonComps puny false false p₁ = canonComps puny false false p₂) (b₁ b₂ : Bool) :
+    (hcl₁ : o.quoted = true → QuotedClean p₁) (hcl₂ : o.quoted = true → QuotedClean p₂)
+    (hc : canonComps puny o.quoted false p₁ = canonComps puny o.quoted false p₂) (b₁ b₂ : Bool) :
     normParts puny o b₁ p₁ = normParts puny o b₂ p₂ := by
-  have h1 := normalize_factors puny hp o hsp hsa hsts hq hlc p₁ hAbs₁ p₁.scheme b₁ true
-  have h2 := normalize_factors puny hp o hsp hsa hsts hq hlc p₂ hAbs₂ p₂.scheme b₂ true
+  have h1 := normalize_factors puny hp o hsp hsa hsts hlc p₁ hAbs₁ hcl₁ p₁.scheme b₁ true
+  have h2 := normalize_factors puny hp o hsp hsa hsts hlc p₂ hAbs₂ hcl₂ p₂.scheme b₂ true
   rw [h1, h2]
   have e1 : ({ p₁ with scheme := p₁.scheme } : Parsed) = p₁ := rfl
   have e2 : ({ p₂ with scheme := p₂.scheme } : Parsed) = p₂ := rfl
   rw [e1, e2, hc]
+
+/-- the quoted-mode exclusion really fails (replayed on the implementation: KF-C03-4):
+`?k=a=b&k=a5` — `canonicalize_url(quoted=True)` escapes the raw `=` of the value, the unquoter
+keeps `%3D`, and `%` sorts before `5` where `=` sorted after it -/
+example :
+    let p : Parsed :=
+      { scheme := "http".toList, netloc := "a.com".toList, path := [], query := "k=a=b&k=a5".toList,
+        fragment := [], username := none, password := none, hostname := some "a.com".toList, port := none }
+    let o : Opts := { quoted := true }
+    ¬ QuotedClean p ∧
+    (normParts id o true p).query = "k=a5&k=a%3Db".toList ∧
+    (normParts id o true (reparse (canonComps id true false p))).query = "k=a%3Db&k=a5".toList := by
+  refine ⟨?_, by decide +kernel, by decide +kernel⟩
+  intro h
+  have := h.2.1 ("k".toList, some "a=b".toList) (by decide +kernel)
+  revert this
+  decide +kernel
 
 /-- port clause (how (c1) survives the two default protocols): `canonicalize_url` drops 80 only
 for http and 443 only for https — and assumes https for a scheme-less URL where
@@ -86,10 +106,11 @@ theorem normalize_port_scheme_blind (s0 : Str) (port : Option Nat) :
 /-- path clause: the path `canonicalize_url` prints resolves, in `normalize_url`, to what the
 input path resolves to (`PathHyp`, discharged from the `normpath` lemmas of C01/C02) — and with
 `strip_trailing_slash` the path of the result depends on nothing else -/
-theorem normalize_path_factors (o : Opts) (hsts : o.stripTrailingSlash = true) (hq : o.quoted = false)
-    (hlc : o.lowercase = false) (path : Str) (hAbs : absP path = true) (hm : Bool) (f q f' q' : Str) :
-    normPath o (unquotePath (canonPath path hm)) f' q' = normPath o path f q :=
-  normPath_canon pathHyp o hsts hq hlc path hAbs hm f q f' q'
+theorem normalize_path_factors (o : Opts) (hsts : o.stripTrailingSlash = true)
+    (hlc : o.lowercase = false) (path : Str) (hAbs : absP path = true)
+    (hcl : o.quoted = true → Normpath.pathClean path = true) (hm : Bool) (f q f' q' : Str) :
+    normPath o (Normpath.pathOut o.quoted path hm) f' q' = normPath o path f q :=
+  normPath_canon pathHyp o hsts hlc path hAbs hcl hm f q f' q'
 
 /-- host clause: `normalize_url`'s hostname is a function of the canonical hostname -/
 theorem normalize_host_factors (puny : Str → Str) (hp : PunyLaws puny) (o : Opts) (h : Str) :
@@ -98,11 +119,11 @@ theorem normalize_host_factors (puny : Str → Str) (hp : PunyLaws puny) (o : Op
 
 /-- query clause: the items that are filtered and sorted are the items of the canonical query,
 and the canonical query is its own canonical query (so `&amp;` is repaired in the same string) -/
-theorem normalize_query_factors (q : Str) :
-    unquoteQsl (safeQslIter (canonQuery false q)) = unquoteQsl (safeQslIter q) ∧
-    (canonQuery false q).isEmpty = q.isEmpty ∧
-    canonQuery false (canonQuery false q) = canonQuery false q :=
-  ⟨items_canonQuery q, canonQuery_isEmpty q, canonQuery_idem q⟩
+theorem normalize_query_factors (Q : Bool) (q : Str) (hcl : Q = true → QslClean q) :
+    unquoteQsl (safeQslIter (canonQuery Q q)) = unquoteQsl (safeQslIter q) ∧
+    (canonQuery Q q).isEmpty = q.isEmpty ∧
+    canonQuery false (canonQuery Q q) = canonQuery false q :=
+  items_canonQuery_modes Q q hcl
 
 /-! ### regression witnesses: the two defects this property found (fixed in /repo 5606787,
 2bbc628) stay fixed in the model -/
@@ -197,7 +218,7 @@ theorem fingerprint_canonicalize_partial (E : Env)
     fpParts E ss (normParts E.puny fpOpts b' (lowerParsed p')) =
       fpParts E ss (normParts E.puny fpOpts b (lowerParsed p)) :=
   fp_of_norm_eq_lower sortHyp E ss p' p hLp' hLp true true b' b
-    (normParts_reparse_canon E.puny hp pathHyp {} rfl rfl rfl rfl rfl p p' hAbs s0 hR true true)
+    (normParts_reparse_canon E.puny hp pathHyp {} rfl rfl rfl rfl p p' hAbs (fun e => absurd e (by decide)) s0 hR true true)
 
 /-! ### the excluded region of (b) really fails (replayed on the implementation: KF-C03-6)
 
